@@ -1,5 +1,5 @@
 # configuration of ./check for property C12 (see props_config.py)
-CONFIG = {'gen': [],
+CONFIG = {'gen': ['ConstsC12'],
  'rule': 'cases = RC4 histories (every key length 1..256 x random chunkings incl. empty chunks, data lengths around '
          '0/1/15..17/31..33/255..257/700 and the RFC 6229 keys with 4128-byte streams; in-place, disjoint, partially overlapping and '
          'too-short destinations; invalid key sizes; Reset inside a history = tie only), CMAC histories (AES-128/192/256, DES, 3DES and '
@@ -28,7 +28,10 @@ CONFIG = {'gen': [],
  'technique': 'Lean 4 proof (simulation of the uint8 RC4 by the textbook algorithm on naturals; representation invariant + induction over '
               'byte/op lists for CMAC with an arbitrary block function; big-endian arithmetic for the subkeys; characterisation of the '
               'constant-time unpad loop; round-trip lemmas for base64/UTF-8/UTF-16/CBC) about hand models; models tied to the Go code by '
-              'differential correspondence; spec oracles on the same inputs',
+              'differential correspondence; spec oracles on the same inputs; constants regenerated from the source on every run by a '
+              'go/ast fact extractor (Gen/ConstsC12: PKCS#7 block bound 1, the 255 loop cap and padding bounds, CMAC r64/r128 with block '
+              'sizes 8/16, shift1 carry and shift, RC4 key-length bounds 1..256 and table size, the GPP AES key literal, zero IV and '
+              'base64 re-padding arithmetic) and proved equal to the ones the model uses by rfl/decide (13 theorems consts_match_model_*)',
  'level_text': '25 theorems proved in Lean for all inputs about hand-written models of crypto/rc4, crypto/cmac, crypto/pkcs7 and '
                'crypto/gppp: RC4 = textbook RC4 for every key of 1..256 bytes, every message and every history of contract-respecting '
                'XORKeyStream calls (rc4_eq_spec, rc4_xor_chunking, rc4_history_eq_spec, rc4_guard, rc4_key_size, rc4_involution); CMAC = '
@@ -40,7 +43,11 @@ CONFIG = {'gen': [],
                'password given D(E(x)) = x, unpadded base64 is accepted, decryption is total and agrees with the specification on every '
                'ciphertext (gpp_*). The models are tied to the code by running both on the same generated inputs on every run, and the '
                "implementation is compared with independent readings of the standards (Lean specs, themselves cross-checked against Go's "
-               'crypto/rc4 and a reference CMAC).',
+               'crypto/rc4 and a reference CMAC). Constants tie: 13 theorems consts_match_model_* restate the model functions with the '
+               'numbers regenerated from the current source (PKCS#7 block bound 1, the 255 loop cap and padding bounds, CMAC r64/r128 with '
+               'block sizes 8/16, shift1 carry and shift, RC4 key-length bounds 1..256 and table size, the GPP AES key literal, zero IV '
+               'and base64 re-padding arithmetic) in place of their literals; a changed constant in the source makes the theorem named '
+               'after the function fail.',
  'level_note': 'Trusted: Lean kernel; axioms propext, Classical.choice, Quot.sound; the hand models are tied to the Go code only by '
                'differential testing (bounded); AES/DES/CBC/base64/UTF-16 of the Go standard library; that the block function is AES-256 '
                'under the published key is checked at run time only (tables computed by crypto/aes under Manticore.C12.GPP.Spec.msKey). '
